@@ -298,3 +298,44 @@ def coarse_cache(prog, dom, prev_level, grid):
 
 def operator(prog, dom, cls, grid, cache, geom, coef, dirbc, threads=2):
     return build(prog, dom, cls, lambda f: len(f["params"]) == 6, [Cell(grid), Cell(cache), Cell(geom), Cell(coef), dirbc, threads])
+
+
+def build_without_body(prog, dom, cls, base, args):
+    """object of class cls with in-class initialisers and the base-class constructor run, but NOT cls's own constructor
+    body (used where the body does numerical work that is outside the analysis, e.g. LU factorisation)"""
+    it = dom.interp
+    obj = dom.new_object(cls, None, None)
+    cands = [f for f in prog.fns("%s::%s" % (base, base)) if len(f["params"]) == len(args)]
+    if len(cands) != 1:
+        raise AnalysisBroken("anchor vanished: constructor %s::%s with %d parameters" % (base, base, len(args)))
+    it.call_function(cands[0], obj, args)
+    return obj
+
+
+def csr_table(m):
+    """{row: {col: value}} of an interpreted SparseMatrixCSR<double> object; also structural problems"""
+    probs = []
+    rows = m.f["rows_"].get()
+    nnz = m.f["nnz_"].get()
+    vals = m.f["values_"].get()
+    cols = m.f["column_indices_"].get()
+    ptr = m.f["row_start_indices_"].get()
+    T = {}
+    for r in range(rows):
+        a, b = ptr.ints.get(r), ptr.ints.get(r + 1)
+        row = {}
+        for k in range(a, b):
+            c = cols.ints.get(k)
+            v = vals.sym.get(k, dag.ZERO)
+            if c is None:
+                probs.append("row %d slot %d has no column index" % (r, k - a))
+                continue
+            if c in row:
+                probs.append("row %d has column %d in two slots" % (r, c))
+                row[c] = dag.add(row[c], dag.lift(v))
+            else:
+                row[c] = dag.lift(v) if not isinstance(v, Lin) else v
+        T[r] = row
+    if ptr.ints.get(rows) != nnz:
+        probs.append("row_start_indices[rows] = %s but nnz = %s" % (ptr.ints.get(rows), nnz))
+    return T, probs
